@@ -226,11 +226,13 @@ class SignatureInfo:
         param = self.parameters[argument]
     else:
       assert isinstance(argument, int)
-      if (
-          self.var_positional_start is not None
-          and argument < self.var_positional_start
+      params = list(self.parameters.values())
+      # An index addresses a positional (non-variadic) parameter, whether or
+      # not the callable also has *args.
+      if 0 <= argument < len(params) and params[argument].kind in (
+          inspect.Parameter.POSITIONAL_ONLY,
+          inspect.Parameter.POSITIONAL_OR_KEYWORD,
       ):
-        params = list(self.parameters.values())
         param = params[argument]
     if param and param.default is not param.empty:
       value = param.default
@@ -268,26 +270,54 @@ class SignatureInfo:
     # resulting `Partial`.
     parameters = list(self.parameters.values())
     positional_values = []
+    # Indices (into `positional_values`) of parameters that have no value.
+    unset_indices = []
     for index, param in enumerate(parameters):
       if param.kind == param.POSITIONAL_ONLY:
         if index in arguments:
           positional_values.append(arguments[index])
           del arguments[index]
-        elif include_no_value:
+        else:
+          unset_indices.append(len(positional_values))
           positional_values.append(self.get_default(index, NO_VALUE))
       if param.kind == param.POSITIONAL_OR_KEYWORD:
         if include_pos_or_kw_in_args or self.var_positional_start in arguments:
           if param.name in arguments:
             positional_values.append(arguments[param.name])
             del arguments[param.name]
-          elif include_no_value:
+          else:
+            unset_indices.append(len(positional_values))
             positional_values.append(self.get_default(index, NO_VALUE))
+    num_fixed = len(positional_values)
     if self.var_positional_start is not None:
       index = self.var_positional_start
       while index in arguments:
         positional_values.append(arguments[index])
         del arguments[index]
         index += 1
+    if not include_no_value and unset_indices:
+      # Unset parameters are not passed. Only a trailing run of them can be left
+      # out of a positional argument list, though: dropping an unset parameter
+      # that is followed by a set one would bind the later values to the wrong
+      # parameters, so its default is passed explicitly instead.
+      unset = set(unset_indices)
+      if len(positional_values) == num_fixed:
+        while num_fixed and (num_fixed - 1) in unset:
+          num_fixed -= 1
+          unset.remove(num_fixed)
+          del positional_values[num_fixed]
+      for index in sorted(unset):
+        if positional_values[index] is NO_VALUE:
+          name = [
+              param.name
+              for param in parameters
+              if param.kind
+              in (param.POSITIONAL_ONLY, param.POSITIONAL_OR_KEYWORD)
+          ][index]
+          raise TypeError(
+              f'Missing value for positional parameter {name!r}: it has no '
+              'default and a positional argument after it is set.'
+          )
     return positional_values, arguments
 
   def validate_param_name(self, name, fn_or_cls) -> None:
